@@ -28,5 +28,8 @@ def standins(tier, seed):
     n = 3 if tier == 'quick' else 15
     sigs = [(3, 0, 0), (2, 0, 1), (1, 2, 0), (2, 1, 0)] if tier == 'quick' else \
         [(p, q, r) for p in range(4) for q in range(3) for r in range(2) if 2 <= p + q + r <= 4] + [(4, 1, 0), (3, 1, 1), (3, 3, 0)]
-    return [{'name': f'series#{i}', 'bound': f'{n} seeded operands per signature: pure-grade outer exponentials (exact), blade exponentials of every sign of square (float, sympy, ndarray), Study-number square roots, powers +-n, norms',
-             'job': {'kind': 'series', 'module': 'standins.jobs6', 'configs': [dict(p=p, q=q, r=r, random=n)], 'seed': seed + i}} for i, (p, q, r) in enumerate(sigs)]
+    cnt = lambda p, q, r: n if p + q + r <= 4 else min(n, 5)
+    return [{'name': f'series#{i}', 'bound': f'{cnt(p, q, r)} seeded operands per signature: pure-grade outer exponentials (exact, tolerance 1e-9 where the generated code '
+                                             'introduces float constants), blade exponentials of every sign of square (float, sympy, ndarray), Study-number square roots, powers +-n, norms; '
+                                             'inverse-based identities (outertan, x**-2) only for inverse arguments with <= 4 blades in 5-D and <= 2 blades in 6-D',
+             'job': {'kind': 'series', 'module': 'standins.jobs6', 'configs': [dict(p=p, q=q, r=r, random=cnt(p, q, r))], 'seed': seed + i}} for i, (p, q, r) in enumerate(sigs)]
